@@ -179,6 +179,7 @@ class _IrSem(irsem.IrSem):
 
 
 class WasmHarness(Harness):
+    prove_fresh_smt = True     # cvc5 fallback gets the original assertions (symx/solve.py)
     prove_uf_first = True      # equal operands => equal products / quotients by congruence (symx/solve.py)
     max_paths = 3000
     max_decisions = 600
